@@ -35,6 +35,7 @@ INLINE = ["Entry.__getitem__", "Entry.__len__"]
 UFUNS = {
     "cnt": (["str", "int"], "int"),   # cnt(t, k): number of kept lines among the first k lines of t (definition: cnt_definition)
     "plain": (["str"], "bool"),       # non-empty, no whitespace character (see module docstring)
+    "dec": (["int"], "str"),          # dec(i) = str(i), a NAME for the engine's encoding of str(int) (definition: dec_definition)
 }
 
 
@@ -235,7 +236,7 @@ def bad_number(t):
 @spec
 def line_of(e):
     """the BPSEQ line of an entry: "i c j" """
-    return str_of(e.index_) + " " + e.sequence + " " + str_of(e.pair)
+    return dec(e.index_) + " " + e.sequence + " " + dec(e.pair)
 
 
 @spec
@@ -272,6 +273,12 @@ def same_entries(E, R):
 LEMMAS = {
     # definition by primitive recursion on k of the counting function used in the statement of from_string
     "cnt_definition": {"kind": "definition", "params": ["t"], "shapes": ["str"], "ensures": ["cnt_def(t)"]},
+    # (the same definition, one step of it as a ground instance)
+    "cnt_step": {"kind": "definition", "params": ["t", "k"], "shapes": ["str", "int"], "requires": ["k >= 0"],
+                 "ensures": ["cnt(t, 0) == 0", "cnt(t, k + 1) == cnt(t, k) + ite(kept(t, k), 1, 0)"]},
+    # dec(i) is an abbreviation of str(i) as the engine encodes it (pyvc/expr.py to_str: str.from_int, '-' in front of a negative
+    # one): an explicit definition.  It keeps the if-then-else / str.from_int terms out of the round-trip proof.
+    "dec_definition": {"kind": "definition", "params": [], "ensures": ["forall(lambda i: dec(i) == str_of(i), pats=['dec(i)'])"]},
     # ---- assumed facts about the Python str methods (needed by the round trip only; each one is listed in props/C01.py)
     # T1  "\n".join(L).splitlines() == L when every line is three plain fields joined by single blanks (such a line is not
     #     empty and holds no line boundary: every line boundary is whitespace, a blank is not a line boundary)
@@ -291,22 +298,22 @@ LEMMAS = {
                        "ensures": ["len(split(three(a, b, c))) == 3", "split(three(a, b, c))[0] == a", "split(three(a, b, c))[1] == b",
                                    "split(three(a, b, c))[2] == c"]},
     # T4  the decimal text of an int is not empty and holds no whitespace (digits and possibly a leading '-')
-    "T4_int_text_plain": {"kind": "assumed-external", "params": ["i"], "ensures": ["plain(str_of(i))"]},
+    "T4_int_text_plain": {"kind": "assumed-external", "params": ["i"], "ensures": ["plain(dec(i))"]},
     # T5  int(str(i)) == i for every int i (and int() accepts that text)
-    "T5_int_of_int_text": {"kind": "assumed-external", "params": ["i"], "ensures": ["int_ok(str_of(i))", "int_of(str_of(i)) == i"]},
+    "T5_int_of_int_text": {"kind": "assumed-external", "params": ["i"], "ensures": ["int_ok(dec(i))", "int_of(dec(i)) == i"]},
     # ---- proved by SMT
     # a text whose first n lines are all kept has counted n of them (induction on n over the definition of cnt)
     "cnt_all_kept": {"kind": "smt", "params": ["t", "n"], "shapes": ["str", "int"], "decreases": "n",
-                     "requires": ["n >= 0", "cnt_def(t)", "forall(lambda k: implies(0 <= k and k < n, kept(t, k)))"],
-                     "steps": ["use cnt_all_kept(t, n - 1) when n > 0"],
+                     "requires": ["n >= 0", "forall(lambda k: implies(0 <= k and k < n, kept(t, k)))"],
+                     "steps": ["use cnt_all_kept(t, n - 1) when n > 0", "use cnt_step(t, n - 1) when n > 0", "use cnt_step(t, 0)"],
                      "ensures": ["cnt(t, n) == n"]},
     # THE ROUND TRIP: for entries E with plain symbols, t = str(b) as BpSeq.__str__'s contract describes it (written) - then
     # from_string(t) does not raise (not bad_number) and whatever entry list R its contract describes (parsed) has E's entries
     "bpseq_text_round_trip": {
         "kind": "smt", "params": ["E", "L", "t", "R"], "shapes": ["list[Entry]", "list[str]", "str", "list[Entry]"],
-        "requires": ["len(E) >= 0", "plain_symbols(E)", "written(E, L, t)", "cnt_def(t)"],
+        "requires": ["len(E) >= 0", "plain_symbols(E)", "written(E, L, t)"],
         "steps": [
-            "let A = [str_of(e.index_) for e in E]", "let B = [e.sequence for e in E]", "let C = [str_of(e.pair) for e in E]",
+            "let A = [dec(e.index_) for e in E]", "let B = [e.sequence for e in E]", "let C = [dec(e.pair) for e in E]",
             "forall k | use T4_int_text_plain(E[k].index_) | use T4_int_text_plain(E[k].pair) | assert implies(0 <= k and k < len(E), plain(A[k]) and plain(B[k]) and plain(C[k]) and L[k] == three(A[k], B[k], C[k]))",
             "use T1_join_splitlines(L, A, B, C)",
             "assert len(splitlines(t)) == len(E)",
@@ -374,6 +381,7 @@ class bpseq_str:
     ghost_returns = {"L": "list[str]"}
     raises = []
     modifies = []
+    ghost_entry = ["use dec_definition()"]
     ghost_exit = ["let L = JOINED"]
     ensures = ["written(self.entries, L, result)"]
     ensures_labels = {0: "one-line-per-entry-joined-by-newlines"}
